@@ -297,7 +297,7 @@ func runOne(name string, cfg CheckCfg, tier, repo, only string, workers int, noN
 	start := time.Now()
 	seed, _ := strconv.Atoi(envOr("VERIF_SEED", "0"))
 	id := cfg.Property
-	buildDir := filepath.Join(verifRoot, ".build", name)
+	buildDir := filepath.Join(envOr("VERIF_BUILD", filepath.Join(verifRoot, ".build")), name)
 	os.MkdirAll(buildDir, 0o755)
 	srcRepo := repo
 	if cfg.Gen != nil {
@@ -839,7 +839,7 @@ func runReplayFile(path string) int {
 	var cfg CheckCfg
 	json.Unmarshal(cfgB, &cfg)
 	repo := envOr("VERIF_REPO", "/repo")
-	buildDir := filepath.Join(verifRoot, ".build", doc.Check)
+	buildDir := filepath.Join(envOr("VERIF_BUILD", filepath.Join(verifRoot, ".build")), doc.Check)
 	os.MkdirAll(buildDir, 0o755)
 	if cfg.Gen != nil {
 		g, err := prepareGen(cfg, repo, buildDir)
